@@ -537,6 +537,17 @@ def conc_index(idx):
     return idx
 
 
+def concretize_array(x):
+    """explicit, shape-determining concretisation of a SymArray (forks on undetermined elements)"""
+    if x.dtype == bool:
+        flat = [bool(v) for v in x.vals.ravel()]
+    elif x.dtype.kind == "f":
+        flat = [float(v) for v in x.vals.ravel()]
+    else:
+        flat = [int(v) for v in x.vals.ravel()]
+    return _np.array(flat, dtype=x.dtype).reshape(x.shape)
+
+
 def _is_sym_int_index(i):
     if isinstance(i, SV) and not i.is_bool():
         return True
